@@ -409,7 +409,7 @@ def _lookup(E, PM, A, vc):
         E.oblige("post:innermost", False)
 
 
-@pproof("py:parser.scope_stack_in_current_proto", "Parser.scope_stack_in_current_proto", ["C11", "C17"], must=["post:suffix"])
+@pproof("py:parser.scope_stack_in_current_proto", "Parser.scope_stack_in_current_proto", ["C11", "C17", "C09"], must=["post:suffix"])
 def _ssicp(E, PM, A):
     """returns exactly the scopes pushed since this (possibly imported) file started: scope_stack[init_length:]"""
     ps = PM.Parser.__new__(PM.Parser)
@@ -422,7 +422,7 @@ def _ssicp(E, PM, A):
     # a child parser shares the parent's stack and starts after it
     ps2 = PM.Parser.__new__(PM.Parser)
     ps2.scope_stack = list(objs[:3])
-    ps2.filepath_stack, ps2.comment_block, ps2.traditional_mode = ["a"], [], True
+    ps2.filepath_stack, ps2.comment_block, ps2.traditional_mode = ["a"], [object()], True     # a comment is pending at the import
     made = {}
 
     class FakeParser:
@@ -442,6 +442,8 @@ def _ssicp(E, PM, A):
                                                    and made.get("filepath_stack") is ps2.filepath_stack
                                                    and made.get("traditional_mode") is True and made.get("parsed") == "x.bitproto"),
              props=["C11", "C17"])
+    # the child appends the comments it meets to the block it is given (push_comment): it must be a list, also when comments are pending
+    E.oblige("post:child-comment-block-is-a-list", z3.BoolVal(type(made.get("comment_block")) is list), props=["C09", "C11"])
 
 
 @pproof("py:_ast.Scope.get_member", "Scope.get_member", ["C11"], file="compiler/bitproto/_ast.py", must=["post:"])
@@ -751,3 +753,53 @@ def _lookup_fresh(E, PM, A):
     ps.scope_stack = [proto, other]
     E.oblige("post:other-scope-unaffected", z3.BoolVal(ps._lookup_referenced_member("X") is outer_x
                                                          and ps._lookup_referenced_member("B.X") is outer_bx))
+
+
+@pproof("py:parser.parse_string/errors-cite-file-and-line", "Parser.parse_string", ["C20", "C09"], must=["post:"])
+def _errors_cite_file(E, PM, A):
+    """a violation in the ROOT file - also one met by the lexer (stray character, bad escape, integer width) - is reported as a
+    ParserError carrying that file's path and the line of the violation (real Parser and Lexer objects built by their own constructors;
+    one obligation per kind of violation)"""
+    import bitproto.errors as ER
+    cases = [("stray-character", "proto a\n$\n", 2), ("uint-width", "proto a\nmessage M {\n    uint65 x = 1\n}\n", 3),
+             ("int-width", "proto a\n\n\nmessage M {\n    int0 x = 1\n}\n", 5), ("bad-escape", 'proto a\nconst S = "\\q"\n', 2),
+             ("grammar", "proto a\nmessage {\n}\n", 2), ("undefined-type", "proto a\nmessage M {\n    Nope x = 1\n}\n", 3)]
+    for name, src, line in cases:
+        try:
+            PM.parse_string(src, filepath="dir/f.bitproto")
+            got = "accepted"
+        except ER.ParserError as e:
+            got = (e.filepath, e.lineno)
+        E.oblige("post:%s%s" % (name, "" if got == ("dir/f.bitproto", line) else " (got %r)" % (got,)), z3.BoolVal(got == ("dir/f.bitproto", line)))
+
+
+@pproof("py:parser.p_import", "Parser.p_import", ["C08", "C11", "C20"], must=["post:"],
+        calls=["Parser._get_child_filepath", "Parser._check_parsing_file", "Parser.parse_child", "os.path.samefile"])
+def _p_import(E, PM, A):
+    """the imported proto is declared under the name the import statement GIVES it - the `as` name when there is one, else the
+    file's own proto name - and the import is rejected with DuplicatedDefinition (citing the importing file and the line of the
+    import) exactly when THAT name is already declared in the importing proto; otherwise p[0] is the child and it is a member under
+    that name"""
+    import bitproto.errors as ER
+
+    def scenario(alias, taken):
+        ps, proto = mk_parser(PM, A, filepath="main.bitproto")
+        for nm in taken:
+            proto.push_member(A.Message(name=nm, _bound=proto), nm)
+        child = A.Proto(name="units", filepath="/x/units.bitproto")
+        ps._get_child_filepath = lambda path: "/x/units.bitproto"
+        ps._check_parsing_file = lambda fp: False
+        ps.parse_child = lambda fp: child
+        slots = [None, "import", '"units.bitproto"', ";"] if alias is None else [None, "import", alias, '"units.bitproto"', ";"]
+        p = PStub(slots, linenos={1: 7, 2: 7, 3: 7})
+        try:
+            ps.p_import(p)
+            return ("ok", p[0] is child, [k for k, v in proto.members.items() if v is child])
+        except ER.DuplicatedDefinition as e:
+            return ("dup", e.filepath, e.lineno)
+    want_dup = ("dup", "main.bitproto", 7)
+    E.oblige("post:plain/free", z3.BoolVal(scenario(None, []) == ("ok", True, ["units"])))
+    E.oblige("post:plain/own-name-taken", z3.BoolVal(scenario(None, ["units"]) == want_dup))
+    E.oblige("post:as/free", z3.BoolVal(scenario("u2", []) == ("ok", True, ["u2"])))
+    E.oblige("post:as/own-name-taken-but-alias-free", z3.BoolVal(scenario("u2", ["units"]) == ("ok", True, ["u2"])))
+    E.oblige("post:as/alias-taken", z3.BoolVal(scenario("Base", ["Base"]) == want_dup))
